@@ -75,6 +75,10 @@ class TNode(Node):
 #   ["addreal", key, ip, port, rtt]         same with the unmodified Node class (identifier derived by the library)
 #   ["fail", id_hex]                        the stored node stops answering (failed = 2, i.e. BAD)
 #   ["rmbad"]                               RoutingTable.remove_bad_nodes()
+#   ["readd", id_hex]                       the very Node object that was stored under that identifier earlier and has
+#                                           left the table since (bad-node sweep, eviction) answers again and is handed
+#                                           to RoutingTable.add once more (what DHTCommunity._contact_node does with the
+#                                           objects a crawl got from closest_nodes)
 # ------------------------------------------------------------------------------------------------
 
 def buckets_of(rt: RoutingTable) -> list:
@@ -113,6 +117,13 @@ class Table:
             self.rt.trie[""] = Bucket("", capacity)  # capacity propagates through Bucket.split
         self.before: list = []
         self.before_ids: set = set()
+        self.handed: dict = {}      # identifier -> the Node object that was last stored under it
+
+    def returnable(self) -> list:
+        """(identifier, what the kept object still believes its bucket is) for kept objects that left the table."""
+        stored = self.node_objects()
+        return sorted((i, None if n.bucket is None else n.bucket.prefix_id) for i, n in self.handed.items()
+                      if i not in stored)
 
     def buckets(self) -> list:
         return buckets_of(self.rt)
@@ -130,6 +141,14 @@ class Table:
             node.rtt = rtt
             if good:
                 node.last_response = time.time()  # has answered a query just now: GOOD rather than UNKNOWN
+            r = self.rt.add(node)
+            if any(n is node for n, _b in self.node_objects().get(h2i(id_hex), [])):
+                self.handed[h2i(id_hex)] = node
+            return None if r is None else i2h(int.from_bytes(r.id, "big"))
+        if kind == "readd":
+            node = self.handed[h2i(op[1])]
+            node.failed = 0                        # Request.on_complete: the node answered
+            node.last_response = time.time()
             r = self.rt.add(node)
             return None if r is None else i2h(int.from_bytes(r.id, "big"))
         if kind == "addreal":
@@ -320,9 +339,9 @@ def check_transition(t: Table, op, obs, buckets: list) -> list:  # noqa: ANN001
     out = []
     after_ids = {n[1] for n in ref.all_nodes(buckets)}
     kind = op[0]
-    if kind in ("add", "addreal"):
-        new_id = h2i(op[1]) if kind == "add" else h2i(obs[0])
-        ret = obs if kind == "add" else obs[1]
+    if kind in ("add", "addreal", "readd"):
+        new_id = h2i(obs[0]) if kind == "addreal" else h2i(op[1])
+        ret = obs[1] if kind == "addreal" else obs
         if not after_ids <= t.before_ids | {new_id}:
             out.append(("add:foreign-node-appeared", f"{op!r} made {sorted(after_ids - t.before_ids - {new_id})} appear"))
         if ret is not None and (h2i(ret) != new_id or new_id not in after_ids):
@@ -461,6 +480,9 @@ class Model(core.BfsModel):
         self.first_fail = len(al)
         al += [("fail", i) for i in range(n)]
         al += [("rmbad",)]
+        self.rmbad = len(al) - 1
+        self.first_readd = len(al)
+        al += [("readd", i) for i in range(n)]
         self.alphabet = al
         self._memo: dict = {}
         self.memo_misses = 0
@@ -475,8 +497,8 @@ class Model(core.BfsModel):
         if ev[0] == "add":
             _, i, r = ev
             return ["add", i2h(self.ids[i]), (i % self.nkeys + self.seed) % len(ALL_KEYS), r, 1000 + r, i % 2]
-        if ev[0] == "fail":
-            return ["fail", i2h(self.ids[ev[1]])]
+        if ev[0] in ("fail", "readd"):
+            return [ev[0], i2h(self.ids[ev[1]])]
         return ["rmbad"]
 
     def script(self, events) -> dict:  # noqa: ANN001
@@ -500,7 +522,8 @@ class Model(core.BfsModel):
                 out.extend(range(i * nr, i * nr + nr))
         out += [self.first_fail + i for i, failed in sorted(present.items()) if not ref.is_bad(failed)]
         if not present or any(ref.is_bad(f) for f in present.values()):
-            out.append(len(self.alphabet) - 1)
+            out.append(self.rmbad)
+        out += [self.first_readd + self.index[i] for i, _stale in t.returnable()]
         return out
 
     def apply(self, t: Table, ev):  # noqa: ANN001, ANN201
@@ -510,9 +533,13 @@ class Model(core.BfsModel):
         # Trie shape in child order, per bucket the nodes in dict order (eviction takes the first match) with every
         # attribute a later operation reads.  Not included: addresses (TNode ids do not depend on them),
         # last_changed, and the clock (never advanced).
-        return tuple((path, pid, cap, tuple((self.index.get(k, k), self.index.get(i, i), key, failed, rtt)
-                                            for k, i, key, failed, rtt in nodes))
-                     for path, pid, cap, nodes in t.buckets())
+        # Plus: which identifiers have a kept Node object outside the table (decides which `readd` events exist) and
+        # what that object still believes its bucket is (read by nothing on this tree; kept so that code which starts
+        # reading it cannot hide behind a merged state).
+        return (tuple((path, pid, cap, tuple((self.index.get(k, k), self.index.get(i, i), key, failed, rtt)
+                                             for k, i, key, failed, rtt in nodes))
+                      for path, pid, cap, nodes in t.buckets()),
+                tuple((self.index.get(i, i), stale) for i, stale in t.returnable()))
 
     def check(self, t: Table, hist, ev, obs) -> list:  # noqa: ANN001
         # The state-only part of the oracle (tree shape, lookups, closest_nodes, generate_id) is a function of the
